@@ -234,6 +234,9 @@ Section WithPathMatch.
         let fresh := negb (is_nil text) && negb (mem_str text seen) in
         let fwd := fresh && negb (existsb (hides pm ug e) nomsg) in
         ((e, ug) :: (if existsb (hides pm ug e) nomsg && negb ug then [(e, true)] else [])
+                 (* fix 243c78e: a worker asks the global suppressions about a duplicate it drops *)
+                 ++ (if negb (existsb (hides pm ug e) nomsg) && negb ug && negb (is_nil text) && mem_str text seen
+                     then [(e, true)] else [])
                  ++ (if fwd && negb (existsb (hides pm true e) nofail) then [(e, true)] else []))
           ++ nomsg_queries ug nomsg nofail (if fresh then text :: seen else seen) r
     end.
@@ -254,6 +257,8 @@ Section WithPathMatch.
     let fresh := negb (is_nil text) && negb (mem_str text (l_seen st)) in
     let fwd := fresh && negb (existsb (hides pm ug e) (l_nomsg st)) in
     l_nomsg st' = map (derive ((e, ug) :: (if existsb (hides pm ug e) (l_nomsg st) && negb ug then [(e, true)] else [])
+                                       ++ (if negb (existsb (hides pm ug e) (l_nomsg st)) && negb ug && negb (is_nil text)
+                                              && mem_str text (l_seen st) then [(e, true)] else [])
                                        ++ (if fwd && negb (existsb (hides pm true e) (l_nofail st)) then [(e, true)] else [])) [])
                       (l_nomsg st).
   Proof.
@@ -270,9 +275,19 @@ Section WithPathMatch.
       destruct (mem_str text (l_seen st)); intros H; injection H as <- <-; reflexivity. }
     cbn [app].
     destruct (is_nil text) eqn:Hn; cbn [negb andb].
-    { intros H; injection H as <- <-. reflexivity. }
+    { rewrite !andb_false_r. cbn [app]. intros H; injection H as <- <-. reflexivity. }
     destruct (mem_str text (l_seen st)) eqn:Hs; cbn [negb andb].
-    { intros H; injection H as <- <-. reflexivity. }
+    { apply andb_false_iff in Hw.
+      destruct (existsb (hides pm ug e) (l_nomsg st)) eqn:Hh; cbn [negb andb app].
+      - destruct Hw as [Hw|Hw]; [discriminate|]. intros H; injection H as <- <-. reflexivity.
+      - destruct ug; cbn [negb andb app].
+        + intros H; injection H as <- <-. reflexivity.
+        + destruct (list_is_suppressed pm _ e true) as [[n1d bd]|] eqn:Hd; [|discriminate].
+          apply list_is_suppressed_eq in Hd. destruct Hd as [-> _]. rewrite map_upd_derive, map_derive_derive.
+          intros H; injection H as <- <-. reflexivity. }
+    replace (negb (existsb (hides pm ug e) (l_nomsg st)) && negb ug && true && false) with false
+      by (rewrite andb_false_r; reflexivity).
+    cbn [app].
     destruct (existsb (hides pm ug e) (l_nomsg st)) eqn:Hh; cbn [negb andb].
     { intros H; injection H as <- <-. reflexivity. }
     destruct (list_is_suppressed pm (l_nofail st) e true) as [[f1 nf]|] eqn:H2; [|discriminate].
@@ -629,8 +644,11 @@ Section WithPathMatch.
       + apply in_app_or in H. destruct H as [H|H].
         * destruct (_ && _) in H; [|destruct H]. destruct H as [H|[]]. injection H as -> ->.
           split; [auto|]. exists t0. left. reflexivity.
-        * destruct (_ && _) in H; [|destruct H]. destruct H as [H|[]]. injection H as -> ->.
-          split; [auto|]. exists t0. left. reflexivity.
+        * apply in_app_or in H. destruct H as [H|H].
+          -- destruct (_ && _) in H; [|destruct H]. destruct H as [H|[]]. injection H as -> ->.
+             split; [auto|]. exists t0. left. reflexivity.
+          -- destruct (_ && _) in H; [|destruct H]. destruct H as [H|[]]. injection H as -> ->.
+             split; [auto|]. exists t0. left. reflexivity.
     - apply IH in H. destruct H as [H1 [t H2]]. split; [exact H1|]. exists t. right. exact H2.
   Qed.
 
